@@ -261,7 +261,8 @@ class Ctx:
                 st.inconclusive += 1
                 st.unknowns.append(label)
                 return None
-            self._violation(label, fam, self.solver.model())
+            m = self.nice_model(neg, *[z3.Not(x) for x in self.excluded]) or self.solver.model()
+            self._violation(label, fam, m)
             return False
         # concrete claim
         ok = builtins.bool(claim)
@@ -292,6 +293,34 @@ class Ctx:
 
     def observe(self, name, value):
         self.observed[name] = value
+
+    def nice_model(self, *extra, denom=8, timeout_ms=1500):
+        """a model of the path condition (plus extra) whose real inputs are multiples of 1/denom if one exists
+        (float arithmetic on such values is exact, so a replay on real numpy is not blurred by rounding);
+        falls back to any model.  Returns a z3 model or None."""
+        self.solver.push()
+        try:
+            for e in extra:
+                self.solver.add(e)
+            self.solver.push()
+            n = 0
+            for name, c in self.inputs.items():
+                if z3.is_real(c):
+                    k = z3.Int(f"__dy{n}")
+                    n += 1
+                    self.solver.add(c * denom == z3.ToReal(k))
+            self.solver.set("timeout", timeout_ms)
+            r = self.check()
+            m = self.solver.model() if r == z3.sat else None
+            self.solver.pop()
+            self.solver.set("timeout", self.timeout_ms)
+            if m is not None:
+                return m
+            if self.check() == z3.sat:
+                return self.solver.model()
+            return None
+        finally:
+            self.solver.pop()
 
     def current_model(self):
         """Some model of the current path condition (sym mode)."""
@@ -791,7 +820,10 @@ def explore(scenario_fn, *, timeout_ms=5000, max_paths=20000, excluded_fn=None, 
         except ShimUnsupported as e:
             outcome = None
             st.inconclusive += 1
-            st.gaps.append(f"shim gap: {e}")
+            import traceback as _tb
+            fr = [f"{f.filename.rsplit('/', 1)[-1]}:{f.lineno}" for f in _tb.extract_tb(e.__traceback__)
+                  if "/geoh5py/" in f.filename][-2:]
+            st.gaps.append(f"shim gap: {str(e)[:300]} @ {fr}")
         except SolverUnknown as e:
             outcome = None
             st.inconclusive += 1
